@@ -36,6 +36,9 @@ PROPS = {
     "C07": dict(engine="e1", level="exploration"),
     "C08": dict(engine="e1", level="fault_enumeration", rule="e4", evaluations_counter="crash.states", distinct="states"),
     "C33": dict(engine="e1", level="exploration", rule="e1-sync"),
+    "C10": dict(engine="e1", level="exploration", rule="e1-net"),
+    "C23": dict(engine="e1", level="exploration", rule="e1-net"),
+    "C22": dict(engine="e1", level="exploration", rule="e1-frame"),
     "C24": dict(engine="e1", level="exploration", rule="e1-book"),
     "C25": dict(engine="e1", level="exploration", rule="e1-gate"),
     "C17": dict(engine="e3", level="exploration", rule="e3-derive"),
@@ -59,6 +62,17 @@ ENGINES["e3"] = dict(race=False,
                            "entropy (seeded)", "wall clock (synctest fake clock)"])
 
 RULES = {
+    "e1-net": "one run = a network of 2-3 real nodes (publisher + followers; real visor, bolt, daemon handlers and gnet pool, stepped through hooks H4/H5) on simulated "
+              "links; 20-90 events: clients hand transactions (incl. fat ones and a packer that fills the pool to the block size limit) to any node, the publisher's block "
+              "timer, request/announce/refresh timers, clock advance, and delivery of one in-flight frame with faults (drop, duplicate, chunked, and for C10 third-party "
+              "tampering of the signed objects inside GIVT/GIVB); per-run knobs: maximum outgoing length from its legal minimum upwards, response cap, request count; "
+              "C23 watches every frame and every send error, C10 compares everything any node accepts with what honest signers emitted; "
+              "distinct = distinct (event kind, outcome) sequence",
+    "e1-frame": "one run = 1-5 rounds against one real node (gnet decodeData / convertToMessage / daemon handlers stepped through hook H4): a scripted, correctly introduced peer "
+                "writes a burst of 1-32 well-formed messages (PING, GETB, ANNB, PONG, ANNT, GIVP) as ONE byte stream cut at tape-chosen offsets (single read, random cuts, cuts "
+                "around frame boundaries, byte-by-byte stretches), optionally followed by a malformed tail (length below minimum / above the configured maximum, unknown id, "
+                "undecodable body, trailing bytes, EOF mid-frame, noise) and one more well-formed message; the node's replies must correspond one-to-one and in order to the "
+                "messages before the bad frame, and a bad frame must disconnect with the matching reason; non-trivial = at least 3 chunks delivered",
     "e1-book": "one run = one real node (daemon handlers + gnet pool stepped through hooks H4/H5) and scripted peers on 3 IPs x 3 ports: 8-60 events (incoming connect, "
                "outgoing attempt, its success or failure, introductions with mirror in {0, own, A, B} and listen port in {0, p, q, own}, other messages, peer disconnect, "
                "clock advance + cull / stale / ping ticks), then removal of every connection; after every event the five bookkeeping maps are compared with the "
